@@ -65,6 +65,9 @@ func Ref(sp *Spec, path string, in any, o RefOpts) *RefResult {
 func evalNode(res *RefResult, n *NodeSpec, path string, in any) (any, string) {
 	tag := path + n.Key
 	res.NodeRuns[tag]++
+	if n.PreH != "" && n.Kind != "pass" {
+		in = PreValue(in)
+	}
 	x := in
 	if n.InputKey != "" {
 		m, _ := in.(map[string]any)
@@ -96,7 +99,11 @@ func evalNode(res *RefResult, n *NodeSpec, path string, in any) (any, string) {
 		if n.Fault != "" {
 			return nil, "fault"
 		}
-		out = F(tag, n.Digest, c)
+		ftag := tag
+		if n.Alt {
+			ftag = tag + "~"
+		}
+		out = F(ftag, n.Digest, c)
 	case "graph":
 		sub := Ref(n.Sub, tag+"/", x, RefOpts{})
 		res.absorb(sub)
@@ -109,6 +116,9 @@ func evalNode(res *RefResult, n *NodeSpec, path string, in any) (any, string) {
 	}
 	if n.OutputKey != "" {
 		out = map[string]any{n.OutputKey: out}
+	}
+	if n.PostH != "" && n.Kind != "pass" {
+		out = PostValue(out)
 	}
 	return out, ""
 }
@@ -527,4 +537,52 @@ func refChain(sp *Spec, path string, in any) *RefResult {
 	}
 	res.Out = v
 	return res
+}
+
+// FaultNode returns the lambda carrying a fault (nil if none), searching nested specs.
+func FaultNode(sp *Spec) *NodeSpec {
+	var found *NodeSpec
+	var walk func(sp *Spec)
+	each := func(n *NodeSpec) {
+		if n.Fault != "" && found == nil {
+			found = n
+		}
+		if n.Kind == "graph" && n.Sub != nil {
+			walk(n.Sub)
+		}
+	}
+	walk = func(sp *Spec) {
+		for i := range sp.Nodes {
+			each(&sp.Nodes[i])
+		}
+		for si := range sp.Stages {
+			for i := range sp.Stages[si].Nodes {
+				each(&sp.Stages[si].Nodes[i])
+			}
+		}
+	}
+	walk(sp)
+	return found
+}
+
+// StreamFaultExpectation decides what a run in stream mode may do when a node delivers its
+// failure as an error item on its output stream: if the node's output provably influences the
+// result (perturbing the node function changes the model's outcome) the failure must surface;
+// otherwise the stream may never be read and the run may equally end like the fault-free run.
+func StreamFaultExpectation(sp *Spec, in any, o RefOpts) (mustFail bool, noFault *RefResult) {
+	n := FaultNode(sp)
+	if n == nil {
+		return false, nil
+	}
+	saved := n.Fault
+	n.Fault = ""
+	a := Ref(sp, "", in, o)
+	n.Alt = true
+	b := Ref(sp, "", in, o)
+	n.Alt = false
+	n.Fault = saved
+	if a.Fail != b.Fail || Canon(a.Out) != Canon(b.Out) {
+		return true, a
+	}
+	return false, a
 }
